@@ -18,6 +18,10 @@ pub enum Mutation {
     /// a block of consecutive lines from another corpus file, inserted at a
     /// line boundary (mixes language features that no single test combines)
     InsertLines { at: usize, text: String },
+    /// make a line very long: a trailing comment of `width` characters
+    /// (optionally with multi-byte characters) and/or leading blanks that
+    /// push the code to a far column
+    PadLine { line: usize, width: usize, lead: usize, multibyte: bool },
 }
 
 pub const NON_ASCII: &[&[u8]] = &[
@@ -144,6 +148,9 @@ pub fn draw(rng: &mut Rng, src: &[u8], donors: &[Vec<u8>]) -> Mutation {
         if sig.is_empty() && k < 60 {
             continue;
         }
+        if rng.chance(1, 12) {
+            return Mutation::PadLine { line: rng.below(nlines), width: *rng.pick(&[150usize, 170, 200, 239, 240, 241, 300, 500]), lead: *rng.pick(&[0usize, 0, 0, 150, 200, 400]), multibyte: rng.chance(1, 2) };
+        }
         if !donors.is_empty() && rng.chance(1, 5) {
             let d = rng.pick(donors);
             let dl: Vec<&[u8]> = d.split_inclusive(|b| *b == b'\n').collect();
@@ -267,6 +274,33 @@ pub fn apply(src: &[u8], m: &Mutation) -> Vec<u8> {
                     let l = lines[*i];
                     lines.insert(*i, l);
                 }
+            }
+            lines.concat()
+        }
+        Mutation::PadLine { line, width, lead, multibyte } => {
+            let mut lines: Vec<Vec<u8>> = src.split_inclusive(|b| *b == b'\n').map(|l| l.to_vec()).collect();
+            if *line < lines.len() {
+                let l = &mut lines[*line];
+                let had_nl = l.ends_with(b"\n");
+                if had_nl {
+                    l.pop();
+                }
+                let mut padded: Vec<u8> = vec![b' '; *lead];
+                padded.extend_from_slice(l);
+                padded.extend_from_slice(b" ; ");
+                let mut i = 0;
+                while i < *width {
+                    if *multibyte && i % 3 == 1 {
+                        padded.extend_from_slice("\u{e9}\u{65e5}".as_bytes());
+                    } else {
+                        padded.push(b'x');
+                    }
+                    i += 1;
+                }
+                if had_nl {
+                    padded.push(b'\n');
+                }
+                *l = padded;
             }
             lines.concat()
         }
